@@ -604,7 +604,7 @@ def main(chk: Check):
             snap = drv.snap(nxt)
             ops.append(o)
             trace.append((before, mut_before, o))
-            res.append([v, snap])
+            res.append([v, None if stop else snap])   # after a failed in-place bulk update the set is not compared
             name = o[0] if o[0] not in ("bin", "upd", "test") else {"bin": BIN, "upd": UPD, "test": TEST}[o[0]][o[1]]
             hk = name + (":" + o[3] if len(o) > 3 and o[0] in ("bin", "upd", "test") else "")
             hist[hk] = hist.get(hk, 0) + 1
